@@ -39,6 +39,9 @@ func checkC16(c *Ctx, r *Report) {
 	}
 	requireFixture(r, "G-NILMAP", "nilMapUpdate", func(fc *Ctx, s *Report) { ruleNilMapUpdate(fc, s, nil) })
 	ruleG3X(c, r, scope)
+	if n := ruleGNILCodec(c, r, scope); n < 10 {
+		r.Undecided("G-NIL", "scope:codec-fields", "", fmt.Sprintf("only %d conditionally filled pointer fields of the codec structures found", n))
+	}
 	if n := ruleLoopProgress(c, r, func(f *ssa.Function) bool { return scope[f] }); n < 8 {
 		r.Undecided("L-PROGRESS", "scope", "", fmt.Sprintf("only %d cursor loops without an external reader found in the codec helpers", n))
 	}
